@@ -33,6 +33,9 @@ G = "algorithms.grover.Grover"
 
 
 def run(ctx: Ctx):
+    from .. import memo as _memo
+
+    ctx.section(_memo.check_memo_keys, ctx, ('algorithms.', 'qcircuit.', 'qlassfun.QlassF.compile', 'qlassfun.QlassF.circuit', 'qlassfun.QlassF.to_logicfun'))
     an = fx.effects(ctx)
     ci = ctx.repo.cls(G)
     init = ci.methods.get("__init__")
